@@ -152,7 +152,8 @@ def xmi_song(rng, idx, nev=14, bank127=False, tempo=None, with_tempo=True):
             ends[(c, k)] = now + dur; last_end = max(last_end, now + dur)
             ev.append([dt, {"k": "on", "ch": c, "n": k, "v": rng.choice([1, 64, 100, 127, rng.randrange(1, 128)]), "dur": dur}])
         elif r < 0.72:
-            n = rng.choice([1, 7, 10, 11, 64, 91, 93, 32, 0])
+            # 110 / 111: AIL channel lock / lock protect - plain controllers in an XMI sequence (loop markers only in SMF)
+            n = rng.choice([1, 7, 10, 11, 64, 91, 93, 32, 0, 110, 111])
             v = rng.randrange(128)
             if n == 0: v = rng.choice([0, 1, 5, 126] + ([127, 127] if bank127 else []))
             ev.append([dt, {"k": "cc", "ch": c, "n": n, "v": v}])
